@@ -64,6 +64,31 @@ func (p project) newSchema(name string, body []byte) (*jschema.JSchema, error) {
 	return s, nil
 }
 
+// innerCode: AddType reports a failure of the type's own load as ErrLoadError (706) around the real error's text;
+// the innermost "code NNN" of the message is the reason.
+func innerCode(err error) string {
+	msg := guard(func() string { return err.Error() })
+	c := ""
+	for {
+		i := strings.Index(msg, "code ")
+		if i < 0 {
+			break
+		}
+		msg = msg[i+5:]
+		j := 0
+		for j < len(msg) && msg[j] >= '0' && msg[j] <= '9' {
+			j++
+		}
+		if j > 0 {
+			c = msg[:j]
+		}
+	}
+	if c == "" {
+		return errAt(err)
+	}
+	return errAt(err) + "/" + c
+}
+
 // build creates the root JSchema with all rules and types registered. The error is the first failing AddRule/AddType.
 func (p project) build() (*jschema.JSchema, error) {
 	rootName := p.name
@@ -107,7 +132,7 @@ func (p project) build() (*jschema.JSchema, error) {
 			return root, err
 		}
 		if err := root.AddType(t.name, ts); err != nil {
-			return root, fmt.Errorf("addtype:%s", errAt(err))
+			return root, fmt.Errorf("addtype:%s", innerCode(err))
 		}
 	}
 	return root, nil
